@@ -48,8 +48,11 @@ static void dump_and_exit()
   _exit(0);
 }
 
+static bool g_enabled = true;      // false while an earlier, unrelated session of the process runs (op `pre`)
+
 static void verif_point(const char* name)
 {
+  if (! g_enabled) { return; }
   long& n = g_hits[name];
   ++n;
   if (! g_crashed && g_point == name && n == g_count)
@@ -155,6 +158,26 @@ int main()
     {
       std::string name; unhex(t[5], name);
       session->setClockSync(binlog::ClockSync{std::stoull(t[1]), std::stoull(t[2]), std::stoull(t[3]), std::int32_t(std::uint32_t(std::stoull(t[4]))), name});
+    }
+    else if (t[0] == "pre" && t.size() == 3)
+    {
+      // an earlier session of the same process that is destroyed with unconsumed events: its queues stay in freed heap memory
+      g_enabled = false;
+      {
+        binlog::Session old;
+        binlog::SessionWriter w(old, std::stoull(t[1]));
+        binlog::EventSource src;
+        src.severity = binlog::Severity::info; src.formatString = "stale {}"; src.argumentTags = "I";
+        const std::uint64_t id = old.addEventSource(src);
+        for (std::uint32_t i = 0; i < std::stoul(t[2]); ++i)
+        {
+          Raw raw; raw.bytes.resize(8);
+          const std::uint32_t wid = 9000;
+          memcpy(&raw.bytes[0], &wid, 4); memcpy(&raw.bytes[4], &i, 4);
+          w.addEvent(id, i, raw);
+        }
+      }
+      g_enabled = true;
     }
     else if (t[0] == "consume") { session->consume(out); }
     else if (t[0] == "rotate") { session->reconsumeMetadata(out); }
